@@ -28,6 +28,7 @@ var (
 	flagKnown   = flag.String("verif.known", "", "known-findings file")
 	flagDigests = flag.Bool("verif.digests", false, "record per-case digests (determinism self-test)")
 	flagMaxCase = flag.Int("verif.maxcases", 0, "stop after this many cases (0 = budget only)")
+	flagWorkers = flag.Int("verif.workers", 1, "number of workers (splits enumerations)")
 	flagTier    = flag.String("verif.tier", "quick", "quick|thorough (sizes of enumerations)")
 )
 
@@ -69,6 +70,7 @@ type Stats struct {
 	Digests      []string          `json:"digests,omitempty"`
 	Nondet       string            `json:"nondeterminism,omitempty"`
 	HarnessErr   string            `json:"harness_error,omitempty"`
+	EnumDone     int               `json:"enum_done"` // enumerated cases executed by this worker
 	Panics       int               `json:"sut_panics"` // cases skipped because the code under test panicked where a panic is not this property's subject
 	PanicSample  string            `json:"sut_panic_sample,omitempty"`
 	WallS        float64           `json:"wall_s"`
@@ -166,6 +168,12 @@ const distinctCap = 150000
 // violation leave the minimised case as a replay file. In replay mode it executes the
 // stored case once, without rapid.
 func runProperty[C any](t *testing.T, prop string, gen func(*rapid.T) C, run func(C) *Outcome) {
+	runPropertyEnum(t, prop, nil, gen, run)
+}
+
+// runPropertyEnum first executes the cases of a finite enumeration (split over the
+// workers), then continues with rapid-generated cases until the budget is used up.
+func runPropertyEnum[C any](t *testing.T, prop string, enum []C, gen func(*rapid.T) C, run func(C) *Outcome) {
 	if *flagReplay != "" {
 		b, err := os.ReadFile(*flagReplay)
 		if err != nil {
@@ -253,8 +261,7 @@ func runProperty[C any](t *testing.T, prop string, gen func(*rapid.T) C, run fun
 		}()
 		return run(c)
 	}
-	property := func(rt *rapid.T) {
-		c := gen(rt)
+	handle := func(c C, fatal func(sig string)) {
 		o := safeRun(c)
 		if o.Skip {
 			return
@@ -333,9 +340,30 @@ func runProperty[C any](t *testing.T, prop string, gen func(*rapid.T) C, run fun
 		}
 		st.Sig = o.Sig
 		st.ReplayFile = replayPath
-		// the message is the signature only: rapid compares messages to decide whether a
-		// shrunk case is "the same failure", i.e. the same violation class
-		rt.Fatalf("VIOLATION %s", o.Sig)
+		fatal(o.Sig)
+	}
+	// the rapid failure message is the signature only: rapid compares messages to decide whether
+	// a shrunk case is "the same failure", i.e. the same violation class
+	property := func(rt *rapid.T) {
+		handle(gen(rt), func(sig string) { rt.Fatalf("VIOLATION %s", sig) })
+	}
+	if len(enum) > 0 {
+		nw := *flagWorkers
+		if nw < 1 {
+			nw = 1
+		}
+		stopped := false
+		for i, c := range enum {
+			if i%nw != *flagWorker%nw {
+				continue
+			}
+			handle(c, func(string) { stopped = true })
+			st.EnumDone++
+			if stopped || st.Nondet != "" {
+				t.Fail()
+				return
+			}
+		}
 	}
 
 	base := splitmix(*flagSeed*1000003 + uint64(*flagWorker)*7919 + 1)
